@@ -281,6 +281,20 @@ func c09(p Params) func() {
 			r := mk("LateR")
 			srv.PluginContainer().AppendRight(r)
 			right = append(right, r)
+		case "remove":
+			// a global plugin is removed from the peer's container after the routes were registered:
+			// from then on it sees no message, on any route
+			if len(left) > 0 {
+				if err := srv.PluginContainer().Remove(left[0].name); err != nil {
+					vsched.Failf("Remove(%s): %v", left[0].name, err)
+				}
+				left = left[1:]
+			} else if len(right) > 0 {
+				if err := srv.PluginContainer().Remove(right[len(right)-1].name); err != nil {
+					vsched.Failf("Remove(%s): %v", right[len(right)-1].name, err)
+				}
+				right = right[:len(right)-1]
+			}
 		}
 		var chain1, chain2, global []*Rec
 		chain1 = append(chain1, left...)
